@@ -51,8 +51,8 @@ def run(ctx):
             raise common.CheckError("proto_harness (shuttle) failed:\n" + lg[-3000:])
         runs.append(d)
     # OS-thread build: panicking / cancellation workloads (shuttle treats unwinding as failure)
-    cdir = os.path.join(common.ROOT, "harness-proto")
-    tdir = os.path.join(common.BUILD, "target-std")
+    cdir = common.crate_dir("harness-proto")
+    tdir = common.target_dir("std")
     rc, lg = common.sh(["cargo", "build", "--offline", "--release", "--no-default-features"], cwd=cdir,
                        timeout=2400, env={"CARGO_TARGET_DIR": tdir, "RUSTFLAGS": f"--cfg {common.GUARD}"})
     if rc != 0:
